@@ -23,7 +23,7 @@ RULE = ("Forms of 0-4 parts (field/file mix) whose content is drawn from an adve
         "epilogue, transport padding, extra part headers. Chunkings per body: whole; 1 byte at a time; EVERY single cut position (event-level and sync paths; "
         "a sample through the other three); every pair of cut positions for bodies <= 120 B (thorough <= 160 B); random k-cuts (k<=8) with empty chunks inserted. "
         "Non-trivial = >=1 part and a cut inside a delimiter or adjacent to a CR/LF of the content; distinct = (body, cut positions, path).")
-RULE += " Also: five equivalent spellings of Content-Disposition, names with literal %XX text, a client that ignores the declared charset for one file name (that part's names are not judged), accurate Content-Length on half of the requests, uploads across the 1 MiB spool threshold, uploaded bytes read back through read() / read(n) / save() / aread() / asave(); decoder-state isolation (two decoders fed alternately; an abandoned parse followed by a fresh one). Forms sent with POST / PUT / PATCH / DELETE / OPTIONS; boundaries that begin and end with an apostrophe; a field named _charset_. A third of the ASGI bodies arrive in the shortest legal spelling (keys at their default left out)."
+RULE += " Also: five equivalent spellings of Content-Disposition, names with literal %XX text, a client that ignores the declared charset for one file name (that part's names are not judged), accurate Content-Length on half of the requests, uploads across the 1 MiB spool threshold, uploaded bytes read back through read() / read(n) / save() / aread() / asave(); decoder-state isolation (two decoders fed alternately; an abandoned parse followed by a fresh one). Forms sent with POST / PUT / PATCH / DELETE / OPTIONS; boundaries that begin and end with an apostrophe; a field named _charset_. A third of the ASGI bodies arrive in the shortest legal spelling (keys at their default left out). Regression forms with _charset_ fields naming codecs, six blanks of transport padding and a 180-byte preamble."
 ASSUMPTIONS = [
     "an empty chunk cannot be expressed on WSGI (an empty read() is end of input): the WSGI path drops empty chunks from the partition",
     "names and filenames contain no quote, backslash or line break; content does not contain '--'+boundary (the statement's quantifier)",
